@@ -1,3 +1,3 @@
 #include "hcommon.h"
-extern const struct mc_family fam_mu, fam_sem;
-const struct mc_family *const mc_families[] = { &fam_mu, &fam_sem, NULL };
+extern const struct mc_family fam_mu, fam_sem, fam_cv, fam_muwait;
+const struct mc_family *const mc_families[] = { &fam_mu, &fam_sem, &fam_cv, &fam_muwait, NULL };
